@@ -104,7 +104,12 @@ impl ExecutionCidState {
         self.value_tracker
             .get(cid)
             .ok_or_else(|| UncatchableError::ValueForCidNotFound("value", cid.get_inner()))
-            .map(|vm_value| vm_value.get_value())
+            .and_then(|vm_value| {
+                // the stored text is checked only against its CID, it could be anything
+                vm_value
+                    .try_get_value()
+                    .map_err(|_| UncatchableError::ValueForCidNotFound("well-formed JSON value", cid.get_inner()))
+            })
     }
 
     pub(crate) fn get_tetraplet_by_cid(
